@@ -56,6 +56,10 @@ CHECKS = {
    technique="three parsers of the meta-grammar executed symbolically from MIR on the same symbolic text inside one path: the checked-in meta/src/grammar.rs (MIR of pest_meta), the parser freshly generated from meta/src/grammar.pest, and pest_vm on the optimized rules of grammar.pest; z3 decides the joint path conditions",
    text="For start rule grammar_rules and 7 (quick) / 15 (thorough) sub-rules, on every valid UTF-8 text of 0..N bytes (N=2/3, all bytes symbolic), and for 15/29 grammar templates (a small valid grammar with 1-2 symbolic ASCII holes in literals, escapes, counts, PEEK indices, modifiers, operators, comments, doc comments) fed to grammar_rules: the three parsers agree on acceptance, token tree, error position and expected/unexpected rule sets. Every joint path is replayed on the three compiled parsers.",
    note="Trusted as for C02. Fully symbolic text is short (the meta-grammar forks quickly); longer texts are reached only through the templates, i.e. near a fixed skeleton."),
+ "C13": dict(level="model_checking", design="§5 C13", engine="M",
+   technique="symbolic execution of the MIR of PrattParser/ConstPrattParser/PrattParserMap and PrecClimber with the kind of every token a symbolic selector (z3 forks on the BTreeMap/array lookups), result trees compared with a shunting-yard reference",
+   text="Operator tables are built through the real Op::prefix/postfix/infix, BitOr and PrattParser::op (resp. ConstPrattParser::new_const, PrecClimber::new) code: all tables with 2 operators, 48 seeded (quick) / all (thorough) with 3, 150 seeded with 4 (thorough) - every affix and associativity per operator and every split into precedence levels. For every token sequence of 1..5 (quick) / 6 (thorough) tokens with symbolic kinds the tree built by the real parse() is compared, on each well-formed sequence, with the classical operator-precedence tree (right power p for left-associative infix, p-1 for right-associative and prefix); every token must be used exactly once in order. ConstPrattParser and (infix-only tables, one associativity per level) PrecClimber must give the same tree.",
+   note="Pairs are stubs answering only as_rule(); mapping closures are host closures building a tree. BTreeMap::{insert,get}, Peekable, zip/fold summarised; no native replay for this check (pure table/recursion code). Longer sequences and larger tables are outside the claim."),
 }
 
 NOT_APPLICABLE = {
